@@ -553,6 +553,21 @@ def skiploss(repo, schema=None, sites=None, modules=None):
                     f"does not descend below {t} nodes, but {'/'.join(hidden)} nodes matching the pattern occur there "
                     f"(e.g. the element type of an array is a Type below a Type): {s.action.name} is never applied to them",
                     s.module.rel, s.call.lineno, s.func.qualname if s.func else "")
+    # the converse: a reviewed skip that disappeared.  Each reviewed pair says why the action must NOT be applied below
+    # T; if the action's traversal is still there but no longer skips T, it now runs on those nodes.
+    in_scope = {}
+    for s in sites:
+        if s.action is None or s.pattern is None:
+            continue
+        if modules is not None and not s.module.rel.endswith(tuple(modules)):
+            continue
+        in_scope.setdefault(s.action.name, s)
+    for (action, t), reason in sorted(SKIP_REVIEWED.items()):
+        if action in in_scope and (action, t) not in seen_pairs:
+            s = in_scope[action]
+            res.add(f"{s.module.rel}|{action}|unskip|{t}", f"the traversal that runs {action} over pattern {s.pattern} no longer skips "
+                    f"the descendants of {t}: the action is now applied to matches below {t} nodes, which it must not see "
+                    f"({reason})", s.module.rel, s.call.lineno, s.func.qualname if s.func else "")
     res.detail = {"reviewed_pairs": len(SKIP_REVIEWED), "pairs_on_tree": sorted(f"{a}/{t}" for a, t in seen_pairs)}
     return res
 
@@ -684,4 +699,63 @@ def incidental_pure(repo, schema=None, sites=None):
                     break
         res.analysed.append(f"{f.file}:{f.qualname}")
     res.samples = [f"{f.fq}: {why}" for f, why in list(funcs.values())[:3]]
+    return res
+
+
+def typereach(repo, schema=None, sites=None):
+    """R-TYPEREACH (C14): a rule about a field's *type* (what the referenced type definition is: bit- or byte-
+    addressable, fixed size, ...) concerns every Type node of the structure, and an array's element type is a Type
+    below a Type.  A traversal action in constraints.py that resolves `<t>.atomic_type.reference` therefore either is
+    registered for a pattern ending in Type (the traversal then hands it every nested Type), or, when it is handed a
+    Field / Structure and takes the type from it, walks `array_type.base_type` (or uses ir_util.get_base_type) itself.
+    An action that takes `field.type`, returns unless it is atomic, and never looks at base types silently exempts
+    every array field from the rule."""
+    res = RuleResult("R-TYPEREACH")
+    schema = schema or Schema(repo)
+    sites = sites if sites is not None else collect_sites(repo, schema)
+    for s in sites:
+        if s.pattern is None or not isinstance(s.action, Func) or not s.module.rel.endswith("front_end/constraints.py"):
+            continue
+        f = s.action
+        params = [a.arg for a in f.node.args.args]
+        if not params:
+            continue
+        first = params[0]
+        src_names = {first}
+        # locals derived from the matched node: x = first.type / first.physical_type_alias
+        derived = {}
+        for n in walk_no_nested_funcs(f.node):
+            if isinstance(n, ast.Assign) and len(n.targets) == 1 and isinstance(n.targets[0], ast.Name) \
+                    and isinstance(n.value, ast.Attribute) and isinstance(n.value.value, ast.Name) and n.value.value.id == first:
+                derived[n.targets[0].id] = n.value.attr
+        resolves = []
+        for n in walk_no_nested_funcs(f.node):
+            if isinstance(n, ast.Attribute) and n.attr == "reference" and isinstance(n.value, ast.Attribute) and n.value.attr == "atomic_type":
+                base = n.value.value
+                txt = ast.unparse(base)
+                root = txt.split(".")[0]
+                if root == first or root in derived:
+                    resolves.append((txt, n.lineno))
+        if not resolves:
+            continue
+        res.instances += 1
+        last = s.pattern[-1]
+        body = ast.unparse(f.node)
+        walks = "base_type" in body or "get_base_type" in body
+        if last in ("Type", "ArrayType"):
+            if s.skip and ({"Type", "ArrayType"} & set(s.skip)):
+                res.add(f"{s.module.rel}|{f.name}|skips-nested-types", f"{f.name} is registered for {s.pattern} but the traversal skips the "
+                        f"descendants of {sorted(set(s.skip) & {'Type', 'ArrayType'})}: array element types are never checked",
+                        s.module.rel, s.call.lineno, f.name)
+            continue
+        # (RuntimeParameter.physical_type_alias is exempt: array-typed parameters are rejected by type_check)
+        from_type = [t for t, _ in resolves if derived.get(t.split(".")[0]) == "type" or ".type" in t]
+        if from_type and not walks:
+            res.add(f"{s.module.rel}|{f.name}|array-elements-exempt", f"{f.name} is registered for {s.pattern}, takes the type from the "
+                    f"{last} (`{from_type[0]}`) and resolves its atomic_type only: for an array field the element type (a Type below "
+                    "the field's Type) is never examined, so the rule it enforces does not apply to arrays", s.module.rel,
+                    s.call.lineno, f.name)
+    if res.instances < 3 and not res.findings:
+        raise AnalysisError(f"constraints.py: only {res.instances} type-resolving traversal actions found")
+    res.analysed = ["compiler/front_end/constraints.py"]
     return res
